@@ -145,6 +145,9 @@ func buildWorker() (bin string, ii instrInfo, buildS float64) {
 	base := os.Getenv("TMPDIR")
 	if base == "" {
 		base = "/var/tmp"
+		if st, err := os.Stat(base); err != nil || !st.IsDir() {
+			base = os.TempDir()
+		}
 	}
 	// scratch copies left behind by checks that were killed (SIGKILL, time limits)
 	if old, _ := filepath.Glob(filepath.Join(base, "verif-nas.*")); len(old) > 0 {
